@@ -141,14 +141,14 @@ func New(property, level string, tier Tier) *Recorder {
 	for i := range r.shards {
 		r.shards[i].m = map[uint64]struct{}{}
 	}
-	explore.PanicHook = r.panicHook
+	explore.PanicHook = r.PanicHook
 	return r
 }
 
-// panicHook turns a panic that was raised inside jennifer (the innermost non-runtime frame of the
+// PanicHook turns a panic that was raised inside jennifer (the innermost non-runtime frame of the
 // panicking goroutine belongs to the library) while a check was building or rendering code
 // outside its own guarded sections into a violation; any other panic is a harness failure.
-func (r *Recorder) panicHook(where string, p any, stack []byte) bool {
+func (r *Recorder) PanicHook(where string, p any, stack []byte) bool {
 	lines := strings.Split(string(stack), "\n")
 	started := false
 	for _, l := range lines {
